@@ -230,13 +230,20 @@ def brute(rng, tier):
             permt = torch.randperm(tp.shape[0], generator=g); tp = tp[permt]
             gid = torch.arange(ng).repeat_interleave(sgrp)[permt]
             want = torch.stack([tp[gid == gid[i]].mean(0) for i in range(tp.shape[0])])
-            for use_r in (None, 5.0):
+            for use_r in (None, 5.0, 0.0):          # radius 0: the coincident members are the only points within the radius - all are retained
                 try:
                     o = pp.knn_filter(tp, sgrp - 1, pdim=dd, radius=use_r, ord=ord_); evals += 1
                     if o.shape != want.shape or not torch.allclose(o, want, atol=1e-9):
-                        fails.append(dict(clause='knn_filter_coincident_points', signature=f'group={sgrp},radius={"yes" if use_r else "no"},ord={ord_}', groups=ng, pdim=dd))
+                        fails.append(dict(clause='knn_filter_coincident_points', signature=f'group={sgrp},radius={use_r},ord={ord_}', groups=ng, pdim=dd))
                 except Exception as e:
                     fails.append(dict(clause='knn_filter_raises', signature=f'coincident points, group={sgrp},radius={use_r}', error=f'{type(e).__name__}: {e}'[:120]))
+            # ... and in a cloud WITHOUT coincident points nothing has a neighbour within radius 0: the result is empty
+            try:
+                oe = pp.knn_filter(tp[gid != gid[0]][::sgrp] if False else centres.repeat(1, 1), 1, radius=0.0, ord=ord_); evals += 1
+                if oe.shape[0] != 0:
+                    fails.append(dict(clause='knn_filter_radius_zero_retains_nothing_without_duplicates', signature=f'ord={ord_}', returned=int(oe.shape[0])))
+            except Exception as e:
+                fails.append(dict(clause='knn_filter_raises', signature='radius 0, no duplicates', error=f'{type(e).__name__}: {e}'[:120]))
         # voxel_filter
         vox = [float(rng.choice([0.5, 1.0, 3.0])) for _ in range(min(d, 3))]
         vd = len(vox)
@@ -291,6 +298,26 @@ def brute(rng, tier):
             hc = torch.stack([hp[v].mean(0) for _, v in sorted(hg.items())])
             if ho.shape != hc.shape or not torch.allclose(torch.sort(ho, 0).values, torch.sort(hc, 0).values, rtol=1e-12, atol=1e-3):
                 fails.append(dict(clause='voxel_filter_huge_grid', signature=f'd={hd}', n=int(hp.shape[0]), voxels_returned=int(ho.shape[0]), voxels_expected=len(hg)))
+        # reprojerr is ZERO for pixels produced by point2pixel - for every reduction, whether or not an input is tracked by autograd (a pose
+        # being optimised, points of a bundle adjustment), in both dtypes
+        if t % 4 == 0:
+            for cdt in (torch.float64, torch.float32):
+                cp = torch.randn(5, 3, dtype=cdt, generator=g) + torch.tensor([0.0, 0.0, 6.0], dtype=cdt)
+                Kc = torch.tensor([[500.0, 0, 320.0], [0, 480.0, 240.0], [0, 0, 1.0]], dtype=cdt); Xc = pp.randn_SE3(sigma=0.1, dtype=cdt)
+                px = pp.point2pixel(cp, Kc, Xc)
+                for red in ('none', 'norm', 'sum'):
+                    for track in ('plain', 'pose requires grad', 'points require grad', 'no_grad'):
+                        cpp = cp.clone().requires_grad_(track == 'points require grad'); Xcc = pp.SE3(Xc.tensor().clone().requires_grad_(track == 'pose requires grad'))
+                        try:
+                            if track == 'no_grad':
+                                with torch.no_grad(): e_ = pp.reprojerr(cpp, px, Kc, Xcc, reduction=red)
+                            else:
+                                e_ = pp.reprojerr(cpp, px, Kc, Xcc, reduction=red)
+                        except Exception as ex:
+                            fails.append(dict(clause='reprojerr_raises', signature=f'{red}/{track}', error=f'{type(ex).__name__}: {ex}'[:100])); continue
+                        evals += 1
+                        if float(e_.detach().abs().max()) > 64 * torch.finfo(cdt).eps * 640:
+                            fails.append(dict(clause='reprojerr_zero_for_projected_pixels', signature=f'{red}/{track}/{str(cdt).split(".")[-1]}', err=float(e_.detach().abs().max())))
         # random_filter
         num = rng.randrange(0, n + 1)
         rf = pp.random_filter(pts, num)
